@@ -683,6 +683,8 @@ class Folder:
                     v = self.fold(e)
                     if isinstance(v, int) and not isinstance(v, bool):
                         return v
+                    if isinstance(v, BoolList) and not any(isinstance(t, list) for t in v):
+                        return [k_ for k_, m_ in enumerate(v) if m_]  # a 1-D mask along this axis
                     if isinstance(v, list) and not isinstance(v, BoolList) and all(isinstance(t, int) and not isinstance(t, bool) for t in v):
                         return list(v)  # a list of positions (advanced indexing along this axis)
                     raise Unfoldable("matrix index")
@@ -1539,6 +1541,13 @@ class Folder:
                         dims = dims[0]
                     if all(isinstance(d, int) and not isinstance(d, bool) and 0 <= d <= 4096 for d in dims):
                         fill = 0 if short == "zeros" else 1
+                        if any(k.arg == "dtype" and unparse(k.value).split(".")[-1] == "bool" for k in node.keywords):
+                            fill = bool(fill)
+
+                            def _mkb(ds):
+                                return BoolList([_mkb(ds[1:]) for _ in range(ds[0])]) if ds else fill
+
+                            return _mkb(dims)
 
                         def _mk(ds):
                             return [_mk(ds[1:]) for _ in range(ds[0])] if ds else fill
